@@ -49,6 +49,9 @@ StructVals == {Lst(<<>>)} \cup {Lst(<<a>>) : a \in Items} \cup {Lst(<<a, b>>) : 
               \cup {[k |-> "cstruct", ct |-> SA, vals |-> <<PyI(0 - 1), PyI(3)>>],
                     [k |-> "cstruct", ct |-> SB, vals |-> <<PyI(3), PyI(1), PyI(1)>>]}
 Garbage(n) == [j \in 1..n |-> Base - 1]
+\* convertible initializers of SA: full, short, empty, dict
+OkItems == {Lst(<<>>), Lst(<<PyI(1)>>), Lst(<<PyI(0 - 1), PyI(3)>>),
+            [k |-> "dict", keys |-> <<2>>, items |-> <<PyI(100)>>]}
 
 Init == t \in Types \cup StructTypes /\ v = None /\ phase = "start" /\ out = <<>>
 Pick == /\ phase = "start"
@@ -86,6 +89,14 @@ ASSUME \E ty \in Types, x \in SmallU : FfiInt(ty, x, "ffi_zeroext") # IdealInt(t
 ASSUME \E ty \in Types, x \in SmallU : FfiInt(ty, x, "bool_range") # IdealInt(ty, x)
 ASSUME \E x \in {y \in StructVals : y.k = "list"} :
           LET id == ConvStruct(SA, x) o == StructStore(Garbage(SizeT(SA)), SA, x, FALSE) IN id.ok /\ o.b # ImgOf(SA, id.c)
+
+\* the temporary array of structs built from a list argument equals the rule's zero-completed
+\* items, below and above the alloca threshold (8 digits here); without the memset of the
+\* malloc'ed array ("heap_nozero") it does not
+OkLists == {<<a>> : a \in OkItems} \cup {<<a, b>> : a, b \in OkItems} \cup {<<a, b, c>> : a, b, c \in OkItems}
+ASSUME \A l \in OkLists : TmpArrayStore(SA, l, 8, "faithful") = IdealItems(SA, l, 1)
+ASSUME \E l \in OkLists : TmpArrayStore(SA, l, 8, "heap_nozero") # IdealItems(SA, l, 1)
+ASSUME \A l \in {m \in OkLists : Len(m) = 1} : TmpArrayStore(SA, l, 8, "heap_nozero") = IdealItems(SA, l, 1)
 
 \* the digit library against TLC's own integers (the values of the window fit natively)
 ValOf(x) == IF x.neg THEN 0 - NatOf(x.mag) ELSE NatOf(x.mag)
